@@ -111,7 +111,8 @@ def run(module, cfg=None, cfg_text=None, workers=16, timeout=900, env=None, simu
             f.write(cfg_text)
     cfg = cfg or module
     meta = common.subscratch("meta")
-    java = ["java", "-XX:+UseParallelGC", "-Xss64m"]
+    # (SANY unpacks the standard modules into java.io.tmpdir on every start: keep that inside the run's scratch directory)
+    java = ["java", "-XX:+UseParallelGC", "-Xss64m", "-Djava.io.tmpdir=" + meta]
     if heap:
         java.append("-Xmx" + heap)
     if dfs:
